@@ -371,7 +371,18 @@ def inplace_domain(ctx):
                     ctx.fail(None, f"C30: {kind}: {a} t = W(v1), t.v = v2, {b} t: {p_}", dict(case, problem=p_), domain=dom2)
 
 
+def deductive(ctx):
+    """engine D: on every path of the real WorkflowTask.construct the memoised workflow is handed out only after the identity
+    it was stored under compared equal to the identity the inputs have now; a newly built one is memoised under that identity
+    -- contracts/workflow_memo.py"""
+    from contracts import workflow_memo as WM
+    from pyvc.verify import verify, summarize
+
+    summarize(ctx, verify(ctx, WM.contract()))
+
+
 def run(ctx):
+    deductive(ctx)
     with T.private_hash_cache():
         _run(ctx)
         inplace_domain(ctx)
